@@ -109,6 +109,7 @@ def decorators():
 
 
 NDEC = 11
+FOUR = [2, 6, 7, 8]          # try_zero, kwargs_support, cache, loop: the decorators used for the 4-deep stacks
 FALLBACK = dict(try_none=None, try_nan='nan', try_zero=0, try_false=False, try_list=[])
 
 
@@ -173,6 +174,9 @@ def check_program(case):
         stacks += [[which, j] for j in range(len(D))]
     if depth >= 3:
         stacks += [[which, j, l] for j in range(len(D)) for l in range(len(D))]
+    if depth >= 2 and which in FOUR and (sig['p'], sig['k']) in ((2, 1), (1, 0), (3, 3)):
+        # the same decorator innermost and outermost with TWO different ones in between: W(V(U(W(f)))) keeps U and V and holds W once
+        stacks += [[which, j, l, which] for j in FOUR for l in FOUR if len({which, j, l}) == 3]
     for st in stacks:
         names = [D[i][0] for i in st]
         sname = '('.join(reversed(names)) + '(f' + ')' * len(st)         # outermost first
@@ -211,8 +215,12 @@ def check_program(case):
                 inner_twice = D[st[0]][1](D[st[0]][1](f))
                 if type(inner_twice) is not type(D[st[0]][1](f)) or isinstance(inner_twice.function, type(inner_twice)):
                     out.viol('double-wrapping', '%s(%s(f)) keeps two layers' % (names[0], names[0]), outer=names[0], n=1)
-                if st[-1] == st[0] and len(st) == 3 and st[1] != st[0]:
+                if st[-1] == st[0] and len(st) >= 3 and st[0] not in st[1:-1]:
                     ch = _chain(g)
+                    mid = [type(D[i][1](f)).__name__ for i in st[1:-1]]
+                    if [c for c in ch if c != type(g).__name__] != mid[::-1]:
+                        out.viol('double-wrapping', '%s of %s: the decorators in between were lost or reordered: chain %s, expected %s below one %s' % (
+                            sname, label, ch, mid[::-1], type(g).__name__), outer=names[-1], n=len(st), through_chain=True, lost=True)
                     if ch.count(type(g).__name__) != 1:
                         out.viol('double-wrapping', '%s of %s: the same decorator appears twice in the chain %s' % (sname, label, ch), outer=names[-1], n=len(st), through_chain=True)
         except Exception as e:
@@ -475,6 +483,7 @@ CALLS = [
     # two keywords with DIFFERENT values in either spelling order: (a=1,b=2) and (b=2,a=1) are one combination, (b=1,a=2) is another
     ('f(a=1,b=2)', (), {'a': 1, 'b': 2}), ('f(b=2,a=1)', (), {'b': 2, 'a': 1}), ('f(b=1,a=2)', (), {'b': 1, 'a': 2}), ('f(a=2,b=1)', (), {'a': 2, 'b': 1}),
     ('f(3) -> None', (3,), {}), ('f(3,b=0) -> None', (3,), {'b': 0}),
+    ('f(-1)', (-1,), {}), ('f(-2)', (-2,), {}),          # hash(-1) == hash(-2) in CPython: equal hashes are not equal arguments
     ("f({'x':1,'y':2})", ({'x': 1, 'y': 2},), {}), ("f({'y':1,'x':2})", ({'y': 1, 'x': 2},), {}), ("f({'y':2,'x':1})", ({'y': 2, 'x': 1},), {}),
 ]
 
